@@ -125,6 +125,9 @@ pub struct SimCore {
     pub cur_instr: Option<usize>,
     pub names: Vec<String>,
     pub counts: Vec<u64>,
+    /// executions after which the state fingerprint differed (the instruction had its operands)
+    pub effective: Vec<u64>,
+    pub pre_quick: u64,
     pub faults: BTreeMap<&'static str, u64>,
     pub probes: BTreeMap<&'static str, u64>,
     pub envelope: Envelope,
@@ -158,6 +161,8 @@ impl SimCore {
             cur_instr: None,
             names: vec![],
             counts: vec![],
+            effective: vec![],
+            pre_quick: 0,
             faults: BTreeMap::new(),
             probes: BTreeMap::new(),
             envelope: Envelope::off(),
@@ -289,6 +294,7 @@ pub fn begin(script: &EnvScript, envelope: Envelope, names: &[String], hooks: Op
         s.spawn = Rng::new(script.spawn_seed);
         s.names = names.to_vec();
         s.counts = vec![0; names.len()];
+        s.effective = vec![0; names.len()];
         s.envelope = envelope;
         s.hooks = hooks;
         s.base_live = alloc::live();
@@ -360,6 +366,7 @@ fn pre(idx: usize, st: &mut PushState) -> bool {
             // begin() was given no registry: still meter and envelope by name
             s.names = wrapped_names();
             s.counts = vec![0; s.names.len()];
+            s.effective = vec![0; s.names.len()];
         }
         s.counts[idx] += 1;
         trace(&s.names[idx], s.events);
@@ -394,6 +401,7 @@ fn pre(idx: usize, st: &mut PushState) -> bool {
             }
         }
         let h = crate::statecode::shape(st);
+        s.pre_quick = crate::statecode::quick(st);
         let (clk, dr) = (s.clock_us, s.draws);
         s.log(idx as u64);
         s.log(clk);
@@ -420,9 +428,13 @@ fn post(idx: usize, st: &mut PushState) {
         let (ev, name) = with(|s| (s.events - 1, s.names[idx].clone()));
         h.post(ev, &name, st);
     }
+    let q = crate::statecode::quick(st);
     with(|s| {
         s.hooks = hooks;
         s.cur_instr = None;
+        if q != s.pre_quick && idx < s.effective.len() {
+            s.effective[idx] += 1;
+        }
         if s.envelope.enabled {
             let grown = alloc::live().saturating_sub(s.base_live);
             if grown > s.envelope.e_bytes || s.events >= s.envelope.e_events {
